@@ -10,6 +10,8 @@
                    argument already added", the defaults written by set_defaults(config file).
    The behaviour switches (`facts`) are regenerated from the source on every check (Gen/FactsHistory.v). *)
 From SPV Require Export Base.Str Model.OptStr.
+(* the conflict resolver (Model/OptStr.v `loop`) instantiated with its regenerated constants: resolve_gen *)
+From SPV Require Export Gen.FactsConflicts.
 
 (* ---------- what a parser is defined by ---------- *)
 Record alt := mkalt { a_key : string; a_cls : string; a_fname : string; a_fdefault : string }.
@@ -29,7 +31,12 @@ Record pdef := mkdef { df_cfg : cfg; df_cr : crmode; df_cfgarg : bool; df_adds :
 
 (* ---------- regenerated behaviour switches ---------- *)
 Record facts := mkfacts {
-  reasserts : bool;               (* _preprocessing re-asserts the parser's own three settings on FieldWrapper *)
+  reasserts : bool;               (* _preprocessing re-asserts the parser's own three settings on FieldWrapper before the
+                                     add-argument loop *)
+  reassert_first : bool;          (* ... and does so before EVERYTHING that reads them (the conflict resolver, the subgroup
+                                     choice); false: only after conflict resolution *)
+  defaults_own_mode : bool;       (* set_defaults / _add_arguments test the parser's OWN nested_mode (false: the class-level
+                                     FieldWrapper.nested_mode, i.e. the most recently constructed parser's) *)
   cfgarg_every_parse : bool;      (* the help-only --config_path argument is added unconditionally on every parse *)
   setup_cached : bool;            (* set-up runs once (guarded by _preprocessing_done) *)
   tuple_counter_persists : bool;  (* the tuple converter's call counter lives as long as the set-up *)
@@ -248,14 +255,25 @@ Definition cfg_attr (argv : list string) : string :=
 (* set_defaults(file) for each named file, in order; a name without a registered extension (read_file ->
    get_extension) or a missing file raises after the earlier ones were applied *)
 Definition suffixb (suf s : string) : bool := prefixb (srev suf) (srev s).
-Fixpoint apply_files (ftbl : list (string * kv)) (live : kv) (files : list string) : res unit * kv :=
+(* A file is "rooted" ({dest: {field: value}}: every key dest.field) or "root-less" ({field: value}).  set_defaults re-roots
+   the content under the only destination when the nested mode IT LOOKS AT is WITHOUT_ROOT and the parser holds exactly one
+   wrapper.  Re-rooting a rooted file raises RuntimeError ("[dest] are not fields"); a root-less file that is not re-rooted
+   ends up as stray attributes of the namespace (argparse defaults), not in any dataclass. *)
+Definition file_rooted (kvs : kv) : bool := forallb (fun p => has_char "."%char (fst p)) kvs.
+Fixpoint apply_files (ftbl : list (string * kv)) (reroot : bool) (rootdest : string) (live : kv) (files : list string)
+  : res unit * kv :=
   match files with
   | [] => (Ok tt, live)
   | fl :: r =>
       if negb (suffixb ".json" fl) then (Err (Raise "RuntimeError"), live) else
       match find (fun p => String.eqb (fst p) fl) ftbl with
       | None => (Err (Raise "FileNotFoundError"), live)
-      | Some (_, kvs) => apply_files ftbl (kv_set_all live kvs) r
+      | Some (_, kvs) =>
+          if reroot then
+            if file_rooted kvs then (Err (Raise "RuntimeError"), live)
+            else apply_files ftbl reroot rootdest
+                   (kv_set_all live (map (fun p => (rootdest ++ "." ++ fst p, snd p)) kvs)) r
+          else apply_files ftbl reroot rootdest (if file_rooted kvs then kv_set_all live kvs else live) r
       end
   end.
 
@@ -263,23 +281,48 @@ Fixpoint apply_files (ftbl : list (string * kv)) (live : kv) (files : list strin
 Definition fw_of (path : list string) (n : string) : fw := mkfw path n "" [] false.
 Definition fdest (dest n : string) : string := dest ++ "." ++ n.
 
+(* ---- conflict resolution: the field wrappers, the prefixes the resolver gives them ---- *)
+Definition top_fws (adds : list add) : list fw :=
+  flat_map (fun ad : add => map (fun fd => fw_of [snd ad] (f_name fd)) (d_fields (fst ad))) adds.
+Definition pf_of (fs : list fw) : kv := map (fun x => (dest x, pfx x)) fs.
+Definition fw_pf (pf : kv) (path : list string) (n : string) : fw :=
+  mkfw path n (kv_default pf (join_dot (path ++ [n])) "") [] false.
+(* ConflictResolver.resolve: option strings are read from the class-level settings `g` at every step *)
+Definition resolve_fws (g : cfg) (cr : crmode) (fs : list fw) : res (list fw) := resolve_gen (option_strings g) cr fs.
+(* resolve_and_flatten on the wrappers as declared *)
+Definition pre (g : cfg) (cr : crmode) (adds : list add) : res (list fw) := resolve_fws g cr (top_fws adds).
+
 (* the subgroup-choice arguments (registered on a throw-away argparse parser with allow_abbrev=False) *)
-Definition choice_acts (g : cfg) (adds : list add) : list action :=
+Definition choice_acts (g : cfg) (pf : kv) (adds : list add) : list action :=
   flat_map (fun ad : add => let (c, dest) := ad in
     flat_map (fun fd => match f_kind fd with
-                        | FSub alts dkey => [mkact (option_strings g (fw_of [dest] (f_name fd))) (fdest dest (f_name fd))
+                        | FSub alts dkey => [mkact (option_strings g (fw_pf pf [dest] (f_name fd))) (fdest dest (f_name fd))
                                                    (KChoice (map a_key alts)) dkey]
                         | _ => []
                         end) (d_fields c)) adds.
-Definition choose (g : cfg) (adds : list add) (args : list string) : res kv :=
-  match fst (parse_acts false (choice_acts g adds) [] args) with
+Definition choose (g : cfg) (pf : kv) (adds : list add) (args : list string) : res kv :=
+  match fst (parse_acts false (choice_acts g pf adds) [] args) with
   | Ok (ns, _) => Ok ns
   | Err e => Err e
   end.
+Definition chosen_alt (chosen : kv) (dest : string) (fd : fdecl) : option alt :=
+  match f_kind fd with
+  | FSub alts dkey => find (fun a => String.eqb (a_key a) (kv_default chosen (fdest dest (f_name fd)) dkey)) alts
+  | _ => None
+  end.
+(* the wrappers after the subgroup choice: each dataclass followed by the wrapper of its chosen alternative *)
+Definition all_fws (fs1 : list fw) (adds : list add) (chosen : kv) : list fw :=
+  let pf := pf_of fs1 in
+  flat_map (fun ad : add =>
+    (map (fun fd => fw_pf pf [snd ad] (f_name fd)) (d_fields (fst ad))
+     ++ flat_map (fun fd => match chosen_alt chosen (snd ad) fd with
+                            | Some a => [fw_of [snd ad; f_name fd] (a_fname a)]
+                            | None => []
+                            end) (d_fields (fst ad)))%list) adds.
 
-Definition field_acts (g : cfg) (chosen live : kv) (dest : string) (fd : fdecl) : list action :=
+Definition field_acts (g : cfg) (pf chosen live : kv) (dest : string) (fd : fdecl) : list action :=
   let d := fdest dest (f_name fd) in
-  let opts := option_strings g (fw_of [dest] (f_name fd)) in
+  let opts := option_strings g (fw_pf pf [dest] (f_name fd)) in
   match f_kind fd with
   | FInt => [mkact opts d KInt (kv_default live d (f_default fd))]
   | FStr => [mkact opts d KStr (kv_default live d (f_default fd))]
@@ -287,34 +330,44 @@ Definition field_acts (g : cfg) (chosen live : kv) (dest : string) (fd : fdecl) 
   | FEnum sh e fo => [mkact opts d (KEnum sh e fo) (kv_default live d (f_default fd))]
   | FSub alts dkey =>
       mkact opts d (KChoice (map a_key alts)) dkey ::
-      match find (fun a => String.eqb (a_key a) (kv_default chosen d dkey)) alts with
-      | Some a => [mkact (option_strings g (fw_of [dest; f_name fd] (a_fname a))) (fdest d (a_fname a)) KInt
+      match chosen_alt chosen dest fd with
+      | Some a => [mkact (option_strings g (fw_pf pf [dest; f_name fd] (a_fname a))) (fdest d (a_fname a)) KInt
                          (kv_default live (fdest d (a_fname a)) (a_fdefault a))]
       | None => []
       end
   end.
-(* the argparse actions created by _preprocessing, with the option strings computed from the settings `g`
-   that are on FieldWrapper at that moment *)
-Definition build (g : cfg) (adds : list add) (chosen live : kv) : list action :=
-  flat_map (fun ad : add => flat_map (field_acts g chosen live (snd ad)) (d_fields (fst ad))) adds.
+(* the argparse actions created by the add-argument loop of _preprocessing, with the option strings computed from the
+   settings `g` that are on FieldWrapper at that moment and the prefixes `pf` the resolver assigned *)
+Definition build (g : cfg) (pf : kv) (adds : list add) (chosen live : kv) : list action :=
+  flat_map (fun ad : add => flat_map (field_acts g pf chosen live (snd ad)) (d_fields (fst ad))) adds.
 
-(* ConflictResolution.NONE: an option string held by two fields is a ConflictResolutionError, raised by
-   resolve_and_flatten before the subgroup choice and by the resolver's second pass after it.  (AUTO never meets a
-   clash in the histories: field names are disjoint unless the parser is in NONE mode.) *)
 Definition crmode_eqb (a b : crmode) : bool :=
   match a, b with CRNone, CRNone | CRExplicit, CRExplicit | CRAuto, CRAuto => true | _, _ => false end.
-Definition top_opts (g : cfg) (adds : list add) : list string :=
-  flat_map (fun ad : add => flat_map (fun fd => option_strings g (fw_of [snd ad] (f_name fd))) (d_fields (fst ad))) adds.
-Definition clash (cr : crmode) (opts : list string) : bool := crmode_eqb cr CRNone && negb (str_nodupb opts).
 Definition acts_opts (acts : list action) : list string := flat_map ac_opts acts.
 
 Record setup := mksu { su_acts : list action; su_chosen : kv; su_fr : kv; su_n : nat }.
-Definition do_setup (g : cfg) (cr : crmode) (adds : list add) (live : kv) (args : list string) : res setup :=
-  if clash cr (top_opts g adds) then Err CRE else
-  match choose g adds args with
+(* everything after the subgroup choice: second resolver pass over all wrappers (settings `gr`), then the add-argument loop
+   (settings `gb`); argparse refuses an option string that is already registered (ArgumentError) *)
+Definition setup_core (gr gb : cfg) (cr : crmode) (adds : list add) (ch live : kv) : res setup :=
+  match pre gr cr adds with
   | Err e => Err e
-  | Ok ch => if clash cr (acts_opts (build g adds ch live)) then Err CRE
-             else Ok (mksu (build g adds ch live) ch live (List.length adds))
+  | Ok fs1 =>
+      match resolve_fws gr cr (all_fws fs1 adds ch) with
+      | Err e => Err e
+      | Ok fs2 =>
+          let acts := build gb (pf_of fs2) adds ch live in
+          if str_nodupb (acts_opts acts) then Ok (mksu acts ch live (List.length adds))
+          else Err (Raise "ArgumentError")
+      end
+  end.
+Definition do_setup (gr gb : cfg) (cr : crmode) (adds : list add) (live : kv) (args : list string) : res setup :=
+  match pre gr cr adds with
+  | Err e => Err e
+  | Ok fs1 =>
+      match choose gr (pf_of fs1) adds args with
+      | Err e => Err e
+      | Ok ch => setup_core gr gb cr adds ch live
+      end
   end.
 (* what a set-up that raised leaves behind when the done-flag was set first: marked done, nothing registered *)
 Definition stuck_setup (live : kv) : setup := mksu [] [] live 0.
@@ -435,12 +488,21 @@ Section Machine.
   (* a set-up that raised: the parser is as it was, unless the done-flag had been set before the work *)
   Definition after_failure (p : pstate) (live : kv) : option setup :=
     if done_after_work f then p_setup p else Some (stuck_setup live).
+  (* the class-level settings once set-up is through: the parser's own if it re-installs them at all *)
   Definition setup_g (g : glob) (p : pstate) : glob :=
     match cached p with Some _ => g | None => if reasserts f then mkglob (p_cfg p) (gl_reg g) else g end.
+  (* the settings the conflict resolver and the subgroup choice read / the add-argument loop reads *)
+  Definition res_cfg (g : glob) (p : pstate) : cfg := if reasserts f && reassert_first f then p_cfg p else gl_cfg g.
+  Definition build_cfg (g : glob) (p : pstate) : cfg := if reasserts f then p_cfg p else gl_cfg g.
+  (* ... and after a set-up that raised: re-installed only if the re-install had been reached (ArgumentError comes
+     from the add-argument loop, everything else from the resolver / the subgroup choice) *)
+  Definition fail_g (g : glob) (p : pstate) (e : err) : glob :=
+    let reached := reassert_first f || match e with Raise "ArgumentError" => true | _ => false end in
+    if reasserts f && reached then mkglob (p_cfg p) (gl_reg g) else g.
   (* set-up proper, as it runs inside _preprocessing: the dataclasses with the Enum parsing functions the registry
      hands out, the option strings from the class-level settings *)
   Definition setup_in (g : glob) (p : pstate) (live : kv) (args : list string) : res setup :=
-    do_setup (gl_cfg g) (p_cr p) (resolve_adds (reg_by_class f) (gl_reg g) (p_adds p)) live args.
+    do_setup (res_cfg g p) (build_cfg g p) (p_cr p) (resolve_adds (reg_by_class f) (gl_reg g) (p_adds p)) live args.
   Definition registered (g : glob) (p : pstate) : glob :=
     mkglob (gl_cfg g) (register (reg_by_class f) (gl_reg g) (enums_of (p_adds p))).
 
@@ -455,14 +517,26 @@ Section Machine.
     end.
 
   (* what parse_known_args does before _preprocessing: split off --config_path, read the files *)
-  Definition prep (p : pstate) (argv : list string) : list string * (res unit * kv) :=
+  (* len(self._wrappers): the dataclasses as added, or - once set up - the flattened list (a chosen subgroup alternative
+     is a wrapper of its own) plus whatever was added since *)
+  Definition nwr (p : pstate) : nat :=
+    match cached p with
+    | None => List.length (p_adds p)
+    | Some su =>
+        List.length (flat_map (fun ad : add => filter (fun fd => match f_kind fd with FSub _ _ => true | _ => false end)
+                                                     (d_fields (fst ad))) (firstn (su_n su) (p_adds p)))
+        + List.length (p_adds p)
+    end.
+  Definition reroots (g : glob) (p : pstate) : bool :=
+    nestmode_eqb (if defaults_own_mode f then nm (p_cfg p) else nm (gl_cfg g)) NWithoutRoot && Nat.eqb (nwr p) 1.
+  Definition prep (g : glob) (p : pstate) (argv : list string) : list string * (res unit * kv) :=
     let live0 := if defaults_persist f then p_live p else [] in
     let (files, args) := if p_cfgarg p then split_cfg argv else ([], argv) in
-    (args, apply_files ftbl live0 files).
+    (args, apply_files ftbl (reroots g p) (hd "" (map snd (p_adds p))) live0 files).
 
   Definition parse_step (g : glob) (p : pstate) (argv : list string) : glob * pstate * vals :=
     let cnt0 := if tuple_counter_persists f then p_cnt p else [] in
-    let '(args, (rl, live1)) := prep p argv in
+    let '(args, (rl, live1)) := prep g p argv in
     let p1 := mkp (p_cfg p) (p_cr p) (p_cfgarg p) (p_adds p) (p_setup p) cnt0 (p_added p) live1 (p_cfgdef p) in
     match rl with
     | Err e => (g, p1, Err e)
@@ -471,8 +545,8 @@ Section Machine.
         let added := p_added p || p_cfgarg p in
         let cfgdef := cfg_default p argv in
         let g' := setup_g g p in
-        match (match cached p with Some su => Ok su | None => setup_in g' p live1 args end) with
-        | Err e => (g', mkp (p_cfg p) (p_cr p) (p_cfgarg p) (p_adds p) (after_failure p live1) cnt0 added live1 cfgdef, Err e)
+        match (match cached p with Some su => Ok su | None => setup_in g p live1 args end) with
+        | Err e => (fail_g g p e, mkp (p_cfg p) (p_cr p) (p_cfgarg p) (p_adds p) (after_failure p live1) cnt0 added live1 cfgdef, Err e)
         | Ok su =>
             let (r, cnt1) := parse_acts true (main_acts added su) cnt0 args in
             ((match cached p with Some _ => g' | None => registered g' p end),
@@ -487,8 +561,8 @@ Section Machine.
   (* print_help(): _preprocessing(args=[]) then argparse's print_help *)
   Definition help_step (g : glob) (p : pstate) : glob * pstate * obs :=
     let g' := setup_g g p in
-    match (match cached p with Some su => Ok su | None => setup_in g' p (p_live p) [] end) with
-    | Err e => (g', mkp (p_cfg p) (p_cr p) (p_cfgarg p) (p_adds p) (after_failure p (p_live p)) (p_cnt p) (p_added p) (p_live p) (p_cfgdef p),
+    match (match cached p with Some su => Ok su | None => setup_in g p (p_live p) [] end) with
+    | Err e => (fail_g g p e, mkp (p_cfg p) (p_cr p) (p_cfgarg p) (p_adds p) (after_failure p (p_live p)) (p_cnt p) (p_added p) (p_live p) (p_cfgdef p),
                 OFail e)
     | Ok su => ((match cached p with Some _ => g' | None => registered g' p end),
                 mkp (p_cfg p) (p_cr p) (p_cfgarg p) (p_adds p) (Some su) (p_cnt p) (p_added p) (p_live p) (p_cfgdef p), ODone)
@@ -536,7 +610,13 @@ Section Machine.
   (* ---------- the situations in which history shows ---------- *)
   Definition is_cached (p : pstate) : bool := match cached p with Some _ => true | None => false end.
   (* (#10) set-up is about to run while FieldWrapper carries another parser's settings *)
-  Definition b_spelling (g : glob) (p : pstate) : bool := reasserts f || is_cached p || cfg_eqb (gl_cfg g) (p_cfg p).
+  Definition b_spelling (g : glob) (p : pstate) : bool :=
+    (reasserts f && reassert_first f) || is_cached p || cfg_eqb (gl_cfg g) (p_cfg p).
+  (* (seeded C08-06) a config file is about to be read while set_defaults looks at ANOTHER parser's nested mode *)
+  Definition b_rootmode (g : glob) (p : pstate) : bool :=
+    negb (p_cfgarg p) || defaults_own_mode f || nestmode_eqb (nm (gl_cfg g)) (nm (p_cfg p)).
+  (* (#13 again) the number of wrappers set_defaults counts is no longer the number of dataclasses added *)
+  Definition b_wrappers (p : pstate) : bool := negb (p_cfgarg p) || Nat.eqb (nwr p) (List.length (p_adds p)).
   (* (seeded C08-04) set-up is about to run while the registry holds, under the key of one of this parser's Enum
      classes, the parsing function of ANOTHER class *)
   Definition b_registry (g : glob) (p : pstate) : bool :=
@@ -548,13 +628,19 @@ Section Machine.
     negb (tuple_counter_persists f) || match p_cnt p with [] => true | _ => false end.
   (* (#13) a cached set-up that is not the one this call would make: arguments added since, another subgroup
      choice than this argv selects, other defaults than this call's *)
-  Definition b_frozen (p : pstate) (argv : list string) : bool :=
+  Definition b_frozen (g : glob) (p : pstate) (argv : list string) : bool :=
     match cached p with
     | None => true
     | Some su =>
-        let '(args, (_, live1)) := prep p argv in
+        let '(args, (_, live1)) := prep g p argv in
         Nat.eqb (su_n su) (List.length (p_adds p))
-        && match choose (p_cfg p) (p_adds p) args with Ok ch => kv_eqb ch (su_chosen su) | Err _ => false end
+        && match pre (p_cfg p) (p_cr p) (p_adds p) with
+           | Ok fs1 => match choose (p_cfg p) (pf_of fs1) (p_adds p) args with
+                       | Ok ch => kv_eqb ch (su_chosen su)
+                       | Err _ => false
+                       end
+           | Err _ => false
+           end
         && kv_eqb (su_fr su) live1
     end.
   (* (0277e53) the help-only --config_path argument exists already and keeps the value of the call that added it *)
@@ -568,8 +654,8 @@ Section Machine.
     | Parse i argv =>
         match slot_get (st_slots s) i with
         | None => true
-        | Some p => b_spelling (st_g s) p && b_registry (st_g s) p && b_cfgarg p && b_tuple p && b_frozen p argv && b_defaults p
-                    && b_cfgattr p
+        | Some p => b_spelling (st_g s) p && b_registry (st_g s) p && b_cfgarg p && b_tuple p && b_frozen (st_g s) p argv
+                    && b_defaults p && b_cfgattr p && b_rootmode (st_g s) p && b_wrappers p
         end
     | PrintHelp i =>
         match slot_get (st_slots s) i with
@@ -584,5 +670,5 @@ Section Machine.
 End Machine.
 
 Definition all_repaired (f : facts) : bool :=
-  reasserts f && negb (cfgarg_every_parse f) && negb (setup_cached f) && negb (tuple_counter_persists f)
+  reasserts f && reassert_first f && defaults_own_mode f && negb (cfgarg_every_parse f) && negb (setup_cached f) && negb (tuple_counter_persists f)
   && negb (defaults_persist f) && reg_by_class f && cfgarg_refreshed f.
